@@ -206,6 +206,8 @@ func cmdCheck(args []string) int {
 		tier = "quick"
 	}
 	runsOverride, secsOverride := 0, 0
+	collect := false
+	classes := map[string][]int64{}
 	for i := 1; i < len(args); i++ {
 		switch args[i] {
 		case "--tier":
@@ -217,6 +219,8 @@ func cmdCheck(args []string) int {
 		case "--secs":
 			i++
 			secsOverride, _ = strconv.Atoi(args[i])
+		case "--collect":
+			collect = true
 		}
 	}
 	spec := specs[id]
@@ -304,6 +308,19 @@ func cmdCheck(args []string) int {
 				a.knownHits[k.Rule+" "+k.Match]++
 				continue
 			}
+			if collect {
+				rule, disc := violationKey(res)
+				if len(disc) > 90 {
+					disc = disc[:90]
+				}
+				k := rule + " | known=" + res.Known + " | " + res.Desc
+				if len(k) > 260 {
+					k = k[:260]
+				}
+				_ = disc
+				classes[rule+" | known="+res.Known] = append(classes[rule+" | known="+res.Known], res.Seed)
+				continue
+			}
 			if failure == nil {
 				failure = res
 				select {
@@ -341,6 +358,21 @@ func cmdCheck(args []string) int {
 		}
 	}
 
+	if collect {
+		var keys []string
+		for k := range classes {
+			keys = append(keys, k)
+		}
+		sort.Strings(keys)
+		for _, k := range keys {
+			seeds := classes[k]
+			n := len(seeds)
+			if len(seeds) > 4 {
+				seeds = seeds[:4]
+			}
+			fmt.Printf("CLASS %6d  %s  seeds=%v\n", n, k, seeds)
+		}
+	}
 	violations := 0
 	exit := 0
 	var replayPath string
@@ -353,11 +385,9 @@ func cmdCheck(args []string) int {
 		}
 		exit = 1
 	}
-	for k, n := range a.knownHits {
-		for _, kf := range known {
-			if kf.Kind == "known" && kf.Property == id && kf.Rule+" "+kf.Match == k {
-				fmt.Printf("KNOWN-FINDING: property=%s %s (rule %s, hit %d times in this run)\n", id, kf.What, kf.Rule, n)
-			}
+	for _, kf := range known {
+		if kf.Kind == "known" && kf.Property == id {
+			fmt.Printf("KNOWN-FINDING: property=%s %s (rule %s; hit %d times in this run)\n", id, kf.What, kf.Rule, a.knownHits[kf.Rule+" "+kf.Match])
 		}
 	}
 	writeEvidence(vdir, spec, tier, seed, a, time.Since(start).Seconds(), buildSecs, runSecs, violations, nw, treeFingerprint(repo))
